@@ -137,15 +137,32 @@ func init() {
 					res = append(res, c)
 				default: // error cases
 					c := base("bad", 0, nil)
-					switch r.Intn(4) {
+					exts := []string{".cnf", ".opb", ".wcnf", ".bf", ".txt"}
+					switch r.Intn(8) {
 					case 0:
-						c["missing"], c["ext"] = true, ".cnf"
+						c["missing"], c["ext"] = true, exts[r.Intn(len(exts))]
 					case 1:
 						c["text"], c["ext"] = "p cnf 1 1\n1 0\n", ".txt"
 					case 2:
 						c["text"], c["ext"] = "p cnf 2 1\n1 x 0\n", ".cnf"
+					case 3:
+						c["text"], c["ext"] = "p cnf 2 1\n1 2\n3 z", ".cnf"
+					case 4:
+						c["text"], c["ext"] = "* #variable= 2 #constraint= 1\n+1 x1 +1 y2 >= 1 ;\n", ".opb"
+					case 5:
+						c["text"], c["ext"] = "* c\n+1 x1 >= ;\n", ".opb"
+					case 6:
+						c["text"], c["ext"] = "p wcnf 2 1 10\n3 1 x 0\n", ".wcnf"
 					default:
 						c["text"], c["ext"] = "a & & b", ".bf"
+					}
+					// every mode of the tool has its own way of opening and reading the file
+					if fl := []string{"", "-count", "-certified", "-mus", "-cp", "-verbose"}[r.Intn(6)]; fl != "" {
+						c["flags"] = []string{fl}
+						cov := map[string]string{"-count": "count", "-certified": "cert", "-mus": "mus"}
+						if m, ok := cov[fl]; ok {
+							c["errmode"] = m
+						}
 					}
 					res = append(res, c)
 				}
@@ -154,6 +171,9 @@ func init() {
 		},
 		Cover: func(t core.Case, cov map[string]int) bool {
 			cov["kind."+s(t, "kind")]++
+			if s(t, "kind") == "bad" {
+				cov["bad.mode."+s(t, "errmode")]++
+			}
 			cov["mode."+s(t, "mode")]++
 			if fl, _ := t["flags"].([]any); len(fl) > 0 {
 				f, _ := fl[0].(string)
@@ -174,7 +194,7 @@ func init() {
 			}
 			return nt
 		},
-		Rule:    "cases: generated .cnf (n<=6; flags none, -count, -certified, -mus, -cp, -verbose), .opb (n<=5, with / without objective, -cp), .wcnf and .bf files with seeded layout, plus unreadable path / unknown suffix / malformed file; the executable is built from /repo and run once per case; its output is tokenised into answer lines; non-trivial = at least two constraints in the file",
-		Require: []string{"kind.cnf", "kind.opb", "kind.wcnf", "kind.bf", "kind.bad", "mode.count", "mode.cert", "mode.mus", "flag.-cp", "flag.-verbose", "answer.SATISFIABLE", "answer.UNSATISFIABLE", "answer.OPTIMUM FOUND", "mus.printed"},
+		Rule:    "cases: generated .cnf (n<=6; flags none, -count, -certified, -mus, -cp, -verbose), .opb (n<=5, with / without objective, -cp), .wcnf and .bf files with seeded layout, plus unreadable path / unknown suffix / malformed file of each kind under each flag; the executable is built from /repo and run once per case; its output is tokenised into answer lines; non-trivial = at least two constraints in the file",
+		Require: []string{"kind.cnf", "kind.opb", "kind.wcnf", "kind.bf", "kind.bad", "mode.count", "mode.cert", "mode.mus", "flag.-cp", "flag.-verbose", "answer.SATISFIABLE", "answer.UNSATISFIABLE", "answer.OPTIMUM FOUND", "mus.printed", "bad.mode.", "bad.mode.count", "bad.mode.cert", "bad.mode.mus"},
 	})
 }
